@@ -21,6 +21,7 @@ THEOREMS_1 = ["C02_ext_ref_accept", "C02_ext_ref_reject", "C02_model_ref_accept"
               "C02_refs_no_index_error", "C02_keytype_predicates", "C02_ref_example_accepted", "C02_ref_example_126",
               "C02_aasd130", "C02_string_types", "C02_version_type", "C02_revision_type", "C02_lang_string_texts",
               "C02_string_errors", "C02_id_short", "C02_id_short_errors", "C02_string_example", "C02_int_ranges"]
+THEOREMS_2 = ["C02_list_ctor", "C02_list_accept_wf", "C02_list_reject_unchanged", "C02_list_history", "C02_list_example"]
 
 
 def enc_exc(e):
@@ -543,7 +544,7 @@ def frag_str_attrs(chk, info):
             e = call(lambda: setattr(o, attr, s))
             msg = msg or attr_verdict(e, ok, lambda: getattr(o, attr), s, valid, lbl + " (setter)")
             if msg:
-                chk.fail(f"C02:strattr:{lbl}:" + ("accepted-invalid" if not ok else "rejected-valid-or-error"), msg,
+                chk.fail(f"C02:strattr:{lbl}:" + ("accepted-invalid" if "accepted" in msg else "rejected-valid-or-error"), msg,
                          {"kind": "strattr", "label": lbl, "codes": [ord(c) for c in s]})
         if optional:
             o = mk(valid)
@@ -563,6 +564,9 @@ def frag_str_attrs(chk, info):
 
 
 def attr_verdict(e, ok, read, s, before, lbl):
+    from basyx.aas.model import AASConstraintViolation
+    if "category(File)" in lbl and s == "" and isinstance(e, AASConstraintViolation) and e.constraint_id == 100:
+        e = ValueError("AASd-100: empty string (documented for data elements)")
     if e is None:
         if not ok:
             return f"{lbl}: invalid string (len {len(s)}, {s[:12]!r}) accepted"
@@ -606,7 +610,7 @@ def run(chk):
     with common.CoqLock():
         infos = regenerate(chk)
     vo = ["theories/props/C02.vo", "theories/model/ConstraintsObs.vo"]
-    built = chk.theorems("props.C02", THEOREMS_1, vo)
+    built = chk.theorems("props.C02", THEOREMS_1 + THEOREMS_2, vo)
     chk.cov["translators"] = {k: ("ok" if v else "ABORTED") for k, v in infos.items()}
     can_eval = built or not any(b.get("kind") == "proof" and "module" in b for b in chk.broken)
     if not can_eval:
@@ -625,6 +629,8 @@ def run(chk):
         else:
             frag_strs(chk, {"string_checks": list(STRING_LIMITS), "lss": {k[len("lss_check_"):]: {} for k in STRING_LIMITS
                                                                          if k.startswith("lss_check_")}})
+        import c02_lists
+        c02_lists.frag_lists(chk, can_eval)
     finally:
         if not can_eval:
             common.run_mismatch_shards = common_run
@@ -635,6 +641,7 @@ def run(chk):
         "Python's re.fullmatch decides membership in the regular language of the (escape-free) patterns translated",
         "str.isalpha restricted to ASCII = [A-Za-z] (premise of C02_id_short, checked on all 128 code points)",
         "str.isdecimal() = every character has Unicode category Nd (reading of 'integer' in AASd-128)",
+        "hand-written model coq/theories/model/ConstraintsModel.v, tied to base.py/submodel.py/aas.py by the correspondence runs",
         "well-formedness predicates model/ConstraintsSpec.v are a transcription of constraints.rst / Part 1 / XML Schema Part 2",
         "tools/c02.py (generators, SDK drivers, oracles), tools/common.py",
     ]
@@ -652,6 +659,9 @@ def replay(path):
     chk = common.Check("C02", "replay", 0)
     from basyx.aas import model
     k = rp.get("kind")
+    if k == "list":
+        import c02_lists
+        return c02_lists.replay_case(rp)
     if k == "ref":
         types = [model.KeyTypes[t] for t in rp["types"]]
         ks = tuple(model.Key(t, v) for t, v in zip(types, rp["values"]))
